@@ -116,7 +116,7 @@ fn gen_scalar(rng: &mut Rng, s: &Src, depth: u32) -> String {
         4 => format!("{} - {}", gen_scalar(rng, s, depth - 1), pick_col(rng, s, "if").map(|c| c.0.clone()).unwrap_or("1".into())),
         5 => format!("greatest({num}, {})", rng.range(0, 4)),
         6 => format!("coalesce({num}, 0)"),
-        7 => pick_col(rng, s, "t").map(|c| format!("upper({})", c.0)).unwrap_or(num),
+        7 => pick_col(rng, s, "t").map(|c| match rng.below(5) { 0 => format!("concat({}, 'x')", c.0), 1 => format!("concat({}, '-', upper({}))", c.0, c.0), 2 => format!("concat({})", c.0), 3 => format!("concat('a', {}, 'b', 'c')", c.0), _ => format!("upper({})", c.0) }).unwrap_or(num),
         _ => num,
     }
 }
@@ -165,7 +165,11 @@ pub fn gen_sql(rng: &mut Rng) -> (String, bool) {
             let col = *rng.pick(&["a", "b"]);
             let other = if col == "a" { "b" } else { "a" };
             let e = match rng.below(4) { 0 => format!("CASE WHEN {other} > 2 THEN 1 ELSE 0 END"), 1 => format!("{other} + 1"), 2 => format!("abs({other})"), _ => format!("CASE WHEN {col} > 3 THEN 1 ELSE 0 END") };
-            match rng.below(9) {
+            match rng.below(12) {
+                // joins whose ON clause is a disjunction / carries extra conditions around an equality with a unique key
+                9 => (format!("SELECT t1.a AS x, t3.k AS k, t3.h AS h FROM t1 JOIN t3 ON t1.e = t3.k OR t1.b = t3.k"), false),
+                10 => (format!("SELECT t1.a AS x, t1.b AS b, t3.k AS k FROM t1 LEFT JOIN t3 ON t1.e = t3.k OR t1.a = t3.k"), false),
+                11 => (format!("SELECT t3.k AS k, t1.a AS x FROM t3 JOIN t1 ON (t3.k = t1.e OR t3.k = t1.b) AND t1.b > -2"), false),
                 0 => (format!("SELECT {e} AS {col}, count(*) AS n FROM t1 GROUP BY {col}"), false),
                 1 => (format!("SELECT {e} AS {col}, sum(c) AS s FROM t1{where_} GROUP BY {col} HAVING count(*) > 0", where_ = if rng.chance(1, 2) { format!(" WHERE {col} > 2") } else { String::new() }), false),
                 2 => (format!("SELECT b AS a, a AS b FROM t1 ORDER BY a, b"), true),
